@@ -17,6 +17,11 @@ Inductive in18 :=
 | CVisitPos (vs : list (bool * list rule)) (insts : list nat) (root : node)
     (* a chain given position by position; [insts] maps each position to the visitor *instance*
        standing there (one instance may occupy several positions); the log names instances *)
+| CVisitHist (steps : list (list (bool * list rule) * list nat)) (root : node)
+    (* one ChainedVisitor object used for several visits of (a fresh parse of) the same document, its
+       public [visitors] attribute re-assigned / extended / truncated / reordered between the visits:
+       a chain is a function of the CURRENT visitors tuple, so each visit must be the visit by the
+       chain standing in [visitors] at that moment (given position by position as in CVisitPos) *)
 | CTransform (which : N) (d : document)                  (* 0 aliases, 1 camel->snake, 2 snake->camel *)
 | CDispatch (k : kind)                                   (* class tables *)
 | CCase (which : N) (name : str).                        (* 1 camel->snake, 2 snake->camel on a name *)
@@ -24,6 +29,7 @@ Inductive in18 :=
 Inductive obs18 :=
 | OVisit (tr : trace) (res : option node)
 | OTree (res : option node)
+| OHist (rs : list (trace * option node))   (* one (log, result) per visit of the history *)
 | OCrash
 | OIllFormed            (* a required attribute of some node is None after the visit *)
 | ODispatch (visit_ok definition_ok enter_ok leave_ok : bool)
@@ -40,8 +46,22 @@ Definition transform_visitor (which : N) : visitor :=
                 | _ => fun n => match act_snake_to_camel n with Some a => a | None => Keep end
                 end).
 
+Definition rename_insts (insts : list nat) (tr : trace) : trace :=
+  map (fun e : event => match e with (i, en, k, l) => (nth i insts i, en, k, l) end) tr.
+
+Fixpoint model_hist (steps : list (list (bool * list rule) * list nat)) (root : node)
+  : outcome (list (trace * option node)) :=
+  match steps with
+  | [] => Ok []
+  | (vs, insts) :: rest =>
+      do p <- visit_top fuel18 (map mk_visitor vs) root;
+      do q <- model_hist rest root;
+      Ok ((rename_insts insts (fst p), snd p) :: q)
+  end.
+
 Definition model_C18 (i : in18) : outcome obs18 :=
   match i with
+  | CVisitHist steps root => do rs <- model_hist steps root; Ok (OHist rs)
   | CVisit vs root =>
       do p <- visit_top fuel18 (map mk_visitor vs) root; Ok (OVisit (fst p) (snd p))
   | CVisitPos vs insts root =>
@@ -57,10 +77,14 @@ Definition model_C18 (i : in18) : outcome obs18 :=
       Ok (OStr (match which with 1%N => Some (camel_to_snake nm) | _ => snake_to_camel nm end))
   end.
 
+Definition visit_eqb (a b : trace * option node) : bool :=
+  leqb event_eqb (fst a) (fst b) && oeqb node_eqb (snd a) (snd b).
+
 Definition obs_eqb (a b : obs18) : bool :=
   match a, b with
   | OVisit t r, OVisit t' r' => leqb event_eqb t t' && oeqb node_eqb r r'
   | OTree r, OTree r' => oeqb node_eqb r r'
+  | OHist a, OHist b => leqb visit_eqb a b
   | ODispatch a1 a2 a3 a4, ODispatch b1 b2 b3 b4 =>
       Bool.eqb a1 b1 && Bool.eqb a2 b2 && Bool.eqb a3 b3 && Bool.eqb a4 b4
   | OStr r, OStr r' => oeqb str_eqb r r'
